@@ -136,6 +136,38 @@ def identify_pareto_variants(c, V):
                 {'pts': FAST_WITNESS, 'num_shards': 1, 'real': r, 'front': [True, False], 'witness_of': 'c11_sharded_counterexample'})
 
 
+KEY_JAX_F32 = 'jax-pareto-routines-narrow-float64-to-float32'
+
+
+def jax_float64_stage(c):
+  """Point sets that only float64 tells apart, through the accelerated routines: jax runs with x64 disabled, so
+  is_frontier / JaxParetoOptimalAlgorithm / pareto_rank compare float32 renderings of the values (the model, and the
+  numpy routines, compare the values themselves)."""
+  import jax
+  import numpy as np
+  from vizier._src.pyvizier.multimetric import pareto_optimal as po
+  from vizier._src.jax import xla_pareto as xp
+  if bool(jax.config.jax_enable_x64):
+    return
+  cases = [[[1.0, 1.0], [1.0 + 1e-9, 1.0]], [[0.0, 5.0], [3e-12, 5.0], [-1.0, 7.0]]]
+  bad = []
+  for pts in cases:
+    a = np.asarray(pts, dtype=np.float64)
+    want = bools(po.NaiveParetoOptimalAlgorithm().is_pareto_optimal(a.copy()))
+    got = {'is_frontier': bools(xp.is_frontier(a.copy(), num_shards=2)),
+           'JaxParetoOptimalAlgorithm': bools(xp.JaxParetoOptimalAlgorithm().is_pareto_optimal(a.copy())),
+           'pareto_rank==0': [int(x) == 0 for x in np.asarray(xp.pareto_rank(a.copy())).reshape(-1)]}
+    c.traces += 1
+    for name, g in got.items():
+      if g != want:
+        bad.append({'routine': name, 'pts': pts, 'real': g, 'front': want})
+  c.count(len(cases), ('jax-float64',), kind='jax-float64-near-ties')
+  if bad:
+    b = bad[0]
+    c.prop_fail(KEY_JAX_F32, 'xla_pareto %s on the float64 points %s reports the front %s, the definition (and the numpy routines) give %s: the values are compared after narrowing to float32 (%d of %d routine/point-set combinations differ)' % (
+        b['routine'], b['pts'], b['real'], b['front'], len(bad), 3 * len(cases)), {'cases': bad})
+
+
 def real_pointset(pts, d, use_jax, shards, fast_jax_base=False):
   """all real routines on one point set."""
   import numpy as np
@@ -671,6 +703,7 @@ def run(c):
   V = Variants()
   quick = c.tier == 'quick'
   identify_pareto_variants(c, V)
+  jax_float64_stage(c)
   corpus = [FAST_WITNESS, [[1.0, 5.0], [1.0, 5.0]], [[INF, -INF], [INF, 1.0], [1.0, -INF]], [], [[0.0]], [[0.0], [0.0]]] + load_corpus()
   pointset_stage(c, V, n_np=1500 if quick else 20000, n_jax=45 if quick else 500, corpus=corpus)
   exhaustive_stage(c, V, 3 if quick else 4)
